@@ -4,6 +4,7 @@
 //! (ord's server and CLI keep process-global state).
 pub mod builder;
 pub mod env;
+pub mod offers;
 pub mod runes;
 
 use {
@@ -37,6 +38,31 @@ pub fn worker(args: &[String]) -> i32 {
         };
         let line = json!({"index": i, "scenario": sc.json(), "label": o.label, "violations": o.violations.iter().map(|(p, c, w)| json!([p, c, w])).collect::<Vec<_>>()});
         println!("RESULT {line}");
+      }
+      0
+    }
+    "offers" => {
+      let list = offers::offers(thorough);
+      let world = match offers::build(&format!("C24-{shard}")) {
+        Ok(w) => w,
+        Err(e) => {
+          for (i, o) in list.iter().enumerate() {
+            if i % shards == shard {
+              println!("RESULT {}", json!({"index": i, "scenario": o.json(), "label": "setup-failed", "violations": [["MACHINERY", "setup", e]]}));
+            }
+          }
+          return 0;
+        }
+      };
+      for (i, o) in list.iter().enumerate() {
+        if i % shards != shard || only.map(|x| x != i).unwrap_or(false) {
+          continue;
+        }
+        let r = match util::catch(|| offers::run(&world, o)) {
+          Ok(r) => r,
+          Err(p) => offers::Outcome { violations: vec![("MACHINERY", "harness-panic".into(), p)], label: "harness-panic".into() },
+        };
+        println!("RESULT {}", json!({"index": i, "scenario": o.json(), "label": r.label, "violations": r.violations.iter().map(|(p, c, w)| json!([p, c, w])).collect::<Vec<_>>()}));
       }
       0
     }
@@ -131,4 +157,21 @@ pub fn run_c23(ctx: &Ctx) -> Report {
      missing lock is forced to collide) x commands {send sats, mint, send rune, burn rune, split}; oracle: broadcast transactions spend no inscribed output and no runic output that does not hold the rune the command is about, and \
      every unspent non-cardinal output is in the node's lock set when funding happened",
   )
+}
+
+pub fn run_c24(ctx: &Ctx) -> Report {
+  let n = offers::offers(ctx.thorough()).len();
+  let mut r = run_in_workers(
+    ctx,
+    "offers",
+    "C24",
+    n,
+    "complete product: PSBTs whose inputs are every sequence of 1..2 (all 1..3 in the thorough tier, plus a slice of triples around the inscription input in quick) distinct kinds out of {wallet output with the named inscription, \
+     wallet output with another inscription, wallet cardinal, wallet runic output, wallet output the node reports as LOCKED, foreign finalized, foreign unsigned, foreign with script sig and witness, foreign finalized with another \
+     witness} x payment to the wallet {amount-1, amount, amount+1} x inscription named on the command line {the first, the other}; each is offered to the real `ord wallet offer accept`; whenever the wallet signs and broadcasts, \
+     every clause of the property is checked against the harness's knowledge of the wallet; the number of accepted offers is in `outcomes`",
+  );
+  r.assume("mainnet chain parameters with the integration-test switch (the mock node's simulaterawtransaction only recognises mainnet wallet addresses)");
+  r.assume("the mock finalizer replaces every witness by a fixed 64-byte signature, so only offers whose foreign signatures equal that value can be accepted; rejecting a good offer is not a violation");
+  r
 }
